@@ -62,10 +62,10 @@ Proof.
   destruct fuel as [|[|[|[|[|m]]]]]; try lia.
   unfold gate_shape in Hs.
   destruct (l_body l) as [|s rest]; [contradiction|].
-  destruct s as [ | | |cnd tb fb| |re| | | |]; try contradiction.
+  destruct s as [ | | |cnd tb fb| |re| | | | |]; try contradiction.
   - (* SIf first *)
     destruct tb as [|s1 tl]; try contradiction.
-    destruct s1 as [ | | | | | |ex| | |]; try contradiction.
+    destruct s1 as [ | | | | | |ex| | | |]; try contradiction.
     destruct ex; try contradiction. destruct tl; try contradiction. destruct fb; try contradiction.
     assert (Hc : reads_gate g cnd = true \/ exists a b, cnd = EOr a b /\ reads_gate g a = true).
     { destruct (reads_gate g cnd) eqn:R; [left; reflexivity|].
@@ -125,9 +125,9 @@ Proof.
   intros Hs Hg v Hv. unfold line_value in Hv.
   unfold gate_shape_chain in Hs.
   destruct (l_body l) as [|s rest]; [contradiction|].
-  destruct s as [ | | |cnd tb fb| |re| | | |]; try contradiction.
+  destruct s as [ | | |cnd tb fb| |re| | | | |]; try contradiction.
   - destruct tb as [|s1 tl]; try contradiction.
-    destruct s1 as [ | | | | | |ex| | |]; try contradiction.
+    destruct s1 as [ | | | | | |ex| | | |]; try contradiction.
     destruct ex; try contradiction. destruct tl; try contradiction. destruct fb; try contradiction.
     destruct (chain g cnd) eqn:Hc; [|contradiction].
     destruct fuel as [|m]; [discriminate|]. rewrite exec_if_first in Hv.
